@@ -35,8 +35,9 @@ type c20Res struct {
 }
 
 type c20Case struct {
-	Results    []c20Res
-	Goroutines int // 1 = sequential
+	SecondRegistry bool `json:",omitempty"`
+	Results        []c20Res
+	Goroutines     int // 1 = sequential
 	// Scrapes (sequential only): after this many results have been observed the metrics are scraped through
 	// the HTTP handler (prom.NewHandler, what `vegeta attack -prometheus-addr` serves); every scrape must show
 	// exactly the results observed so far
@@ -107,6 +108,14 @@ func runC20(c c20Case) error {
 	if err := pm.Register(reg); err != nil {
 		return fmt.Errorf("register: %v", err)
 	}
+	// the same metrics may be exported through a second registry as well (one per listener, one for a push gateway):
+	// both show the same sums
+	reg2 := prometheus.NewRegistry()
+	if c.SecondRegistry {
+		if err := pm.Register(reg2); err != nil {
+			return fmt.Errorf("register with a second registry: %v", err)
+		}
+	}
 	results := make([]*vegeta.Result, len(c.Results))
 	for i, r := range c.Results {
 		results[i] = &vegeta.Result{Method: r.Method, URL: r.URL, Code: r.Code, Error: r.Err, BytesIn: r.In, BytesOut: r.Out,
@@ -155,6 +164,15 @@ func runC20(c c20Case) error {
 	fams, err := reg.Gather()
 	if err != nil {
 		return fmt.Errorf("gather: %v", err)
+	}
+	if c.SecondRegistry {
+		fams2, err := reg2.Gather()
+		if err != nil {
+			return fmt.Errorf("gather from the second registry: %v", err)
+		}
+		if err := c20Compare(fams2, c20Model(c.Results)); err != nil {
+			return fmt.Errorf("second registry the metrics were registered with: %v", err)
+		}
 	}
 	return c20Compare(fams, c20Model(c.Results))
 }
@@ -308,7 +326,7 @@ func TestC20Prom(t *testing.T) {
 		default:
 			n = rapid.IntRange(1, 60).Draw(t, "n")
 		}
-		c := c20Case{Goroutines: 1}
+		c := c20Case{Goroutines: 1, SecondRegistry: rapid.IntRange(0, 3).Draw(t, "secondregistry") == 0}
 		if rapid.IntRange(0, 2).Draw(t, "conc") == 0 {
 			c.Goroutines = rapid.IntRange(2, 16).Draw(t, "g")
 		}
